@@ -15,8 +15,11 @@ def worker(job, extra):
         spec = profiles.make_spec(job['profile'], job['seed'], tier)
     if prop in profiles.REUSE_OK and job.get('spec') is None and job['profile'] != 'pinned' and job['seed'] % 8 == 3 and not spec.get('exact'):
         spec['reuse_network'] = True
+    if prop == 'C17' and job.get('spec') is None and job['profile'] != 'pinned' and job['seed'] % 4 == 3 and not spec.get('exact') and spec.get('tracker'):
+        spec['reuse_network'] = True; spec['reuse_tracker'] = True
     f = gen.features(spec)
     if spec.get('reuse_network'): f = f | {'reused_network'}
+    if spec.get('reuse_tracker'): f = f | {'reused_tracker'}
     if job.get('fault'):
         return fault_run(job, spec, cap, wall)
     if job.get('explore'):
